@@ -10,9 +10,23 @@ def _row(inp, row):
     return P.row_c04(row, inp)
 
 
+def resubmitted(reactions, edit=False):
+    """rows of a second run whose input rows are the output rows of a first run (result files fed back in); with edit=True the
+    reaction of every input-balanced row is first replaced by an unbalanced one (its last product dropped)"""
+    rows1 = [dict(r) for r in P.rebalance(reactions)]
+    if edit:
+        for r in rows1:
+            sd = chem.sides(r["reaction"])
+            if r.get("solved_by") == "input-balanced" and sd and "." in r["reaction"].split(">>")[1]:
+                r["reaction"] = r["reaction"].rsplit(".", 1)[0]
+    return P.rebalance(rows1)
+
+
 def replay(d):
     if d["input"].get("kind") in ("decompose", "table"):
         return c07_native.replay(d)
+    if d["input"].get("kind") == "resubmitted":
+        return any(P.row_c04(r, None) for r in resubmitted(d["input"]["reactions"], d["input"]["edit"]))
     return PC.replay_pipeline(d, _row)
 
 
@@ -41,3 +55,21 @@ def check(run):
             fails.append(({"kind": "pipeline", "reaction": inp, "cfg": {}}, bad))
     run.bounded("derived-balanced-inputs", "reversals, doubles and unions of %d solved results plus heavy-element / ionic cases" % len(solved),
                 len(res), len(set(derived)), fails[:8], False, [{"input": derived[0]}] if derived else None)
+
+    # rows that already carry the tool's own columns (a result fed back in, possibly edited): the label must follow the reaction, not the
+    # stale bookkeeping columns
+    sub = [r for r in P.CRAFTED if "[U]" not in r][:30 if run.tier == "quick" else 60]
+    fails, cases = [], 0
+    for edit in (False, True):
+        try:
+            rows = resubmitted(sub, edit)
+        except Exception as e:
+            fails.append(({"kind": "resubmitted", "reactions": sub, "edit": edit}, "re-submission raised %r" % (e,)))
+            continue
+        for row in rows:
+            cases += 1
+            bad = P.row_c04(row, None)
+            if bad:
+                fails.append(({"kind": "resubmitted", "reactions": sub, "edit": edit}, "re-submitted row%s: %s" % (" (edited)" if edit else "", bad)))
+    run.bounded("resubmitted-result-rows", "%d crafted reactions: the output rows of a run fed back in as input rows, unchanged and with the balanced rows edited to be unbalanced"
+                % len(sub), cases, 2, fails[:5], False)
